@@ -1,9 +1,9 @@
 (* C08 - a call invokes exactly the function that name resolution designates.
-   Statements only; proofs are in Cao.CompilerResolve.  The specification is ResolveSpec.v (module
+   Statements only; proofs are in Cao.CompilerResolve, Cao.ResolveProofs, Cao.ResolveTree, Cao.CompilerCalls.  The specification is ResolveSpec.v (module
    tree level, independent of the compiler model); the run-time half (which body runs, parameter
    binding, caller locals, return value) is checked by the C08 correspondence stream on the real Vm. *)
 From Coq Require Import List NArith ZArith.
-From Cao Require Import ListUtil Bits CardAst Bytecode Compiler ResolveSpec CompilerResolve.
+From Cao Require Import ListUtil Bits CardAst Bytecode Compiler ResolveSpec CompilerResolve ResolveProofs.
 Import ListNotations.
 
 (* ---- resolution never panics or diverges; its result is a declared function ---- *)
@@ -15,30 +15,59 @@ Theorem C08_resolve_outcomes :
 Proof. exact resolve_outcomes. Qed.
 Print Assumptions C08_resolve_outcomes.
 
-(* ---- resolve_sound / resolve_complete, partial: rules 1 and 2 (absolute dotted path, caller's own
-   module).  [table_matches] (the jump table declares exactly the functions of the tree) is a
-   hypothesis here; the import rules 3 and 4 are covered by the correspondence run only.
-   Full statements, not proved:
-     resolve_sound    : resolve_function n s = ROk m s -> exists f, spec_resolve root ns imps n = SFound f
-                                                                     /\ m is the table entry of f
-     resolve_complete : spec_resolve root ns imps n = SFound f -> resolve_function n s = ROk (entry of f) s *)
-Theorem C08_resolve_direct_agrees_partial :
-  forall root s name imports f,
+(* ---- resolve_sound / resolve_complete, all four rules ----
+   [table_matches root jt]: the jump table has an entry for a key exactly when the key, read as a dotted
+   path from the root, is a function of the tree (C08_compile_table_matches below: true for the table of
+   every module that compiles and whose module names contain no '.').  [il] is the caller module's
+   import list and cs_imports the table the model's execute_imports builds from it.
+   The model and the specification designate the same function - the result is the table entry of that
+   function - or fail with the corresponding error.  The priority between the rules is part of the
+   statement: spec_resolve returns the first rule's function, and so does the model. *)
+Theorem C08_resolve_agrees :
+  forall root il name s,
     table_matches root (cs_jump s) ->
-    direct root (cs_ns s) name = Some f ->
-    spec_resolve root (cs_ns s) imports name = SFound f /\
-    exists m, resolve_function name s = ROk m s /\
-              sm_find (ns_prefix (fst f) ++ snd f) (cs_jump s) = Some m.
-Proof. exact resolve_direct_agrees. Qed.
-Print Assumptions C08_resolve_direct_agrees_partial.
+    Forall dotfree (cs_ns s) ->
+    execute_imports il [] = inr (cs_imports s) ->
+    match spec_resolve root (cs_ns s) il name with
+    | SFound f => exists m, sm_find (ns_prefix (fst f) ++ snd f) (cs_jump s) = Some m /\
+                            resolve_function name s = ROk m s
+    | SNotFound => resolve_function name s = RErr (EInvalidJump name) (Some (cur_loc s))
+    | SSuperLimit => resolve_function name s = RErr ESuperLimitReached (Some (cur_loc s))
+    end.
+Proof. exact resolve_agrees. Qed.
+Print Assumptions C08_resolve_agrees.
 
-Theorem C08_resolve_direct_miss_partial :
-  forall root s name,
-    table_matches root (cs_jump s) ->
-    direct root (cs_ns s) name = None ->
-    sm_find name (cs_jump s) = None /\ sm_find (ns_prefix (cs_ns s) ++ name) (cs_jump s) = None.
-Proof. exact resolve_direct_miss. Qed.
-Print Assumptions C08_resolve_direct_miss_partial.
+Theorem C08_resolve_sound :
+  forall root il name s m s',
+    table_matches root (cs_jump s) -> Forall dotfree (cs_ns s) -> execute_imports il [] = inr (cs_imports s) ->
+    resolve_function name s = ROk m s' ->
+    s' = s /\ exists f, spec_resolve root (cs_ns s) il name = SFound f /\
+                        sm_find (ns_prefix (fst f) ++ snd f) (cs_jump s) = Some m.
+Proof. exact resolve_sound. Qed.
+Print Assumptions C08_resolve_sound.
+
+Theorem C08_resolve_complete :
+  forall root il name s f,
+    table_matches root (cs_jump s) -> Forall dotfree (cs_ns s) -> execute_imports il [] = inr (cs_imports s) ->
+    spec_resolve root (cs_ns s) il name = SFound f ->
+    exists m, resolve_function name s = ROk m s /\ sm_find (ns_prefix (fst f) ++ snd f) (cs_jump s) = Some m.
+Proof. exact resolve_complete. Qed.
+Print Assumptions C08_resolve_complete.
+
+(* InvalidJump <-> SNotFound, SuperLimitReached <-> SSuperLimit, and no other error *)
+Theorem C08_resolve_errors :
+  forall root il name s,
+    table_matches root (cs_jump s) -> Forall dotfree (cs_ns s) -> execute_imports il [] = inr (cs_imports s) ->
+    (forall e l, resolve_function name s = RErr e l ->
+       l = Some (cur_loc s) /\
+       ((e = EInvalidJump name /\ spec_resolve root (cs_ns s) il name = SNotFound) \/
+        (e = ESuperLimitReached /\ spec_resolve root (cs_ns s) il name = SSuperLimit))) /\
+    (spec_resolve root (cs_ns s) il name = SNotFound ->
+       resolve_function name s = RErr (EInvalidJump name) (Some (cur_loc s))) /\
+    (spec_resolve root (cs_ns s) il name = SSuperLimit ->
+       resolve_function name s = RErr ESuperLimitReached (Some (cur_loc s))).
+Proof. exact resolve_errors. Qed.
+Print Assumptions C08_resolve_errors.
 
 (* ---- bad_names_rejected ---- *)
 (* duplicates by full name, at any depth: stage 1 succeeds only on pairwise distinct full names *)
